@@ -280,6 +280,22 @@ func runCases(path string, out *bufio.Writer) error {
 				} else {
 					res = doEvaluate(e, d, ctx)
 				}
+			case "selall", "evalall":
+				d := docs[fl[3]]
+				e, err := compile(doc.Unesc(fl[6]), fl[5])
+				if err != nil {
+					res = "E:compile:" + doc.Esc(err.Error())
+					break
+				}
+				var parts []string
+				for _, ctx := range doc.All(d.root) {
+					if kind == "selall" {
+						parts = append(parts, doSelect(e, d, ctx))
+					} else {
+						parts = append(parts, doEvaluate(e, d, ctx))
+					}
+				}
+				res = strings.Join(parts, ";")
 			case "compile":
 				res = doCompile(doc.Unesc(fl[6]), fl[5])
 			case "parse":
@@ -413,3 +429,13 @@ func fmtViaEngine(f float64) string {
 	}
 	return doEvaluate(e, emptyDoc, doc.Ref{N: emptyDoc.root, Attr: -1})
 }
+
+func extraCommand(name string, args []string) bool {
+	if f, ok := extras[name]; ok {
+		f(args)
+		return true
+	}
+	return false
+}
+
+var extras = map[string]func(args []string){}
